@@ -91,6 +91,16 @@ theorem fact_wiring :
     Facts.C09.ambassadorWiring = ["resolver := Resolver{Store: didStore}", "didStore: didStore",
       "keyResolver: dag.SourceTXKeyResolver{Resolver: resolver}", "didResolver: &Resolver{Store: didStore}"] := by decide
 
+/-- the DAG signature verifier cannot succeed without `jws.Verify`: no `return nil` anywhere, and it ends by returning
+    the verdict of `jws.Verify` (model: `verifySig` answers ok only when the verification key is the signer's) -/
+theorem fact_verifier_always_verifies :
+    Facts.C09.verifierNilReturns = 0 ∧ Facts.C09.verifierEndsWithJwsVerify = true := by decide
+
+/-- `verifyThumbprint` never looks at the method's `type` (attacker-chosen text) and succeeds only at its end, after
+    the comparison (model: `validateVMs` applies the thumbprint rule to every entry of `verificationMethod`) -/
+theorem fact_thumbprint_rule_for_every_type :
+    Facts.C09.verifyThumbprintLooksAtType = false ∧ Facts.C09.verifyThumbprintSucceedsOnlyAtTheEnd = true := by decide
+
 /-- **Call sites.** `callback` is entered from the two subscriber functions only and is the only caller of the two
     handlers; the only other `Add` on the DID store in the package is the node's own publishing path
     (`Manager.Update`, which validates with `ManagedDocumentValidator` = network validator + service checks first);
